@@ -588,3 +588,79 @@ Definition field_codec_sources : list (string * string) := [
     address_type = AddressType(data[offset - 1])
     return cls.parse_address_with_type(data, offset, address_type)")
 ].
+
+(* Parser entry points of the C18 scope (from_bytes / parse_* / create class and static methods, the
+   two reassemblers, AdvertisingData.append and UUID.register): the decorators written above each
+   definition and the mutable class- or module-level containers its body reads, as extracted by
+   tools/translate/c18_fieldsrc.py entry_facts().  Only classmethod / staticmethod appear: a parse
+   result is a function of the bytes (and of the class dispatch tables and the UUID registry, which
+   are the only state read and are modelled: Gen/C18Registry.v, Model/CodecsUuid.v).  A cache
+   (functools.lru_cache / cache / cached_property) or any other decorator is rendered with a
+   CACHING: / UNRECOGNISED: prefix by the translator and so can never equal this table. *)
+Definition parser_entry_facts : list (string * string) := [
+  ("bumble.a2dp:AacMediaCodecInformation.from_bytes", "decorators=[classmethod]; state=[]");
+  ("bumble.a2dp:MediaCodecInformation.create", "decorators=[classmethod]; state=[A2DP_VENDOR_MEDIA_CODEC_INFORMATION_CLASSES]");
+  ("bumble.a2dp:SbcMediaCodecInformation.from_bytes", "decorators=[classmethod]; state=[]");
+  ("bumble.a2dp:VendorSpecificMediaCodecInformation.from_bytes", "decorators=[staticmethod]; state=[]");
+  ("bumble.att:ATT_PDU.from_bytes", "decorators=[classmethod]; state=[ATT_PDU.pdu_classes]");
+  ("bumble.att:ATT_Read_Multiple_Variable_Response._parse_length_value_tuples", "decorators=[classmethod]; state=[]");
+  ("bumble.avc:Frame.from_bytes", "decorators=[staticmethod]; state=[CommandFrame.subclasses, ResponseFrame.subclasses]");
+  ("bumble.avc:PassThroughFrame.parse_operands", "decorators=[staticmethod]; state=[]");
+  ("bumble.avctp:MessageAssembler.on_pdu", "decorators=[]; state=[]");
+  ("bumble.avdtp:Discover_Response.parse_endpoints", "decorators=[classmethod]; state=[]");
+  ("bumble.avdtp:EndPointInfo.from_bytes", "decorators=[classmethod]; state=[]");
+  ("bumble.avdtp:MediaCodecCapabilities.from_bytes", "decorators=[classmethod]; state=[]");
+  ("bumble.avdtp:Message.create", "decorators=[classmethod]; state=[Message.subclasses]");
+  ("bumble.avdtp:MessageAssembler.on_pdu", "decorators=[]; state=[]");
+  ("bumble.avdtp:ServiceCapabilities.create", "decorators=[classmethod]; state=[]");
+  ("bumble.avdtp:ServiceCapabilities.parse_capabilities", "decorators=[classmethod]; state=[]");
+  ("bumble.avrcp:BrowseableItem.parse_from_bytes", "decorators=[classmethod]; state=[BrowseableItem.subclasses]");
+  ("bumble.avrcp:Command.from_bytes", "decorators=[classmethod]; state=[Command.subclasses]");
+  ("bumble.avrcp:Event.from_bytes", "decorators=[classmethod]; state=[Event.subclasses]");
+  ("bumble.avrcp:Response.from_bytes", "decorators=[classmethod]; state=[Response.subclasses]");
+  ("bumble.avrcp:Response.from_parameters", "decorators=[classmethod]; state=[]");
+  ("bumble.avrcp:_parse_string", "decorators=[]; state=[]");
+  ("bumble.core:AdvertisingData.append", "decorators=[]; state=[]");
+  ("bumble.core:AdvertisingData.from_bytes", "decorators=[classmethod]; state=[]");
+  ("bumble.core:UUID.from_bytes", "decorators=[classmethod]; state=[]");
+  ("bumble.core:UUID.parse_uuid", "decorators=[classmethod]; state=[]");
+  ("bumble.core:UUID.parse_uuid_2", "decorators=[classmethod]; state=[]");
+  ("bumble.core:UUID.register", "decorators=[]; state=[UUID.UUIDS]");
+  ("bumble.hci:Address.parse_address", "decorators=[classmethod]; state=[]");
+  ("bumble.hci:Address.parse_address_preceded_by_type", "decorators=[classmethod]; state=[]");
+  ("bumble.hci:Address.parse_address_with_type", "decorators=[classmethod]; state=[]");
+  ("bumble.hci:Address.parse_random_address", "decorators=[classmethod]; state=[]");
+  ("bumble.hci:HCI_Object.dict_and_offset_from_bytes", "decorators=[classmethod]; state=[]");
+  ("bumble.hci:HCI_Object.dict_from_bytes", "decorators=[staticmethod]; state=[]");
+  ("bumble.hci:HCI_Object.parse_field", "decorators=[staticmethod]; state=[]");
+  ("bumble.l2cap:EnhancedControlField.from_bytes", "decorators=[classmethod]; state=[]");
+  ("bumble.l2cap:InformationEnhancedControlField.from_bytes", "decorators=[classmethod]; state=[]");
+  ("bumble.l2cap:L2CAP_Connection_Request.parse_psm", "decorators=[staticmethod]; state=[]");
+  ("bumble.l2cap:L2CAP_Control_Frame.decode_configuration_options", "decorators=[staticmethod]; state=[]");
+  ("bumble.l2cap:L2CAP_Control_Frame.from_bytes", "decorators=[classmethod]; state=[L2CAP_Control_Frame.classes]");
+  ("bumble.l2cap:L2CAP_Credit_Based_Connection_Request.parse_cid_list", "decorators=[classmethod]; state=[]");
+  ("bumble.l2cap:L2CAP_PDU.from_bytes", "decorators=[classmethod]; state=[]");
+  ("bumble.l2cap:SupervisoryEnhancedControlField.from_bytes", "decorators=[classmethod]; state=[]");
+  ("bumble.rfcomm:RFCOMM_Frame.from_bytes", "decorators=[staticmethod]; state=[]");
+  ("bumble.rfcomm:RFCOMM_Frame.parse_mcc", "decorators=[staticmethod]; state=[]");
+  ("bumble.rfcomm:RFCOMM_MCC_MSC.from_bytes", "decorators=[staticmethod]; state=[]");
+  ("bumble.rfcomm:RFCOMM_MCC_PN.from_bytes", "decorators=[staticmethod]; state=[]");
+  ("bumble.rfcomm:compute_fcs", "decorators=[]; state=[]");
+  ("bumble.rtp:MediaPacket.from_bytes", "decorators=[staticmethod]; state=[]");
+  ("bumble.sdp:DataElement.from_bytes", "decorators=[classmethod]; state=[]");
+  ("bumble.sdp:DataElement.parse_from_bytes", "decorators=[classmethod]; state=[]");
+  ("bumble.sdp:DataElement.signed_integer_from_bytes", "decorators=[classmethod]; state=[]");
+  ("bumble.sdp:DataElement.unsigned_integer_from_bytes", "decorators=[classmethod]; state=[]");
+  ("bumble.sdp:DataElementParser._list_from_bytes", "decorators=[]; state=[]");
+  ("bumble.sdp:DataElementParser.parse_next", "decorators=[]; state=[]");
+  ("bumble.sdp:SDP_PDU.from_bytes", "decorators=[classmethod]; state=[SDP_PDU.subclasses]");
+  ("bumble.sdp:_parse_bytes_preceded_by_length", "decorators=[]; state=[]");
+  ("bumble.sdp:_parse_service_record_handle_list", "decorators=[]; state=[]");
+  ("bumble.smp:SMP_Command.from_bytes", "decorators=[classmethod]; state=[SMP_Command.smp_classes]")
+].
+
+
+(* the decorator part of a fact is one of the three accepted forms *)
+Definition plain_decorators (v : string) : bool :=
+  orb (prefix "decorators=[]; " v) (orb (prefix "decorators=[classmethod]; " v) (prefix "decorators=[staticmethod]; " v)).
+Definition parsers_plain (l : list (string * string)) : bool := forallb (fun kv => plain_decorators (snd kv)) l.
